@@ -1357,9 +1357,11 @@ fn render_match_type(type_def: &Type) -> String {
         | Type::Identifier { .. }
         | Type::ModuleType { .. }
         | Type::SelfDefault { .. } => true,
-        // A tuple type is always wrapped: bare `[..]`/`(..)`/`P(..)` would re-parse as a tuple or
-        // partial *pattern* rather than a type.
-        Type::Tuple(_) => false,
+        // A tuple type is wrapped: bare `[..]`/`(x: ..)`/`P(..)` would re-parse as a tuple or partial
+        // *pattern* rather than a type. Only the empty partial type `()` has no pattern reading.
+        Type::Tuple(tuple_type) => {
+            tuple_type.is_partial && tuple_type.name.is_none() && tuple_type.fields.is_empty()
+        }
         // `render_type` already parenthesises a union, so it needs no extra wrapping here.
         Type::Union(_) => true,
         _ => false,
